@@ -225,6 +225,29 @@ type ReqSc struct {
 	Option     int      `json:"option,omitempty"`      // 0 unset 1 continue 2 stop 3 undo
 	CountDelta int      `json:"count_delta,omitempty"` // header BatchCount = len(items) + delta
 	Items      []ItemSc `json:"items"`
+	// Hdr: optional header elements none of which may change what the properties state
+	// bits 0-1 BatchOrderOption (0 absent, 1 true, 2 false) | 4 AsynchronousIndicator=false | 8 MaximumResponseSize
+	// | 16 ClientCorrelationValue | 32 no TimeStamp | 64 Authentication (username/password credential)
+	Hdr int `json:"hdr,omitempty"`
+}
+
+// genHdr draws the optional header elements of a request (half of the requests carry none).
+func genHdr(g *simrt.Tape) int {
+	if g.Draw(2) == 0 {
+		return 0
+	}
+	return g.Draw(3) | g.Draw(32)<<2
+}
+
+// allHdrs enumerates every combination of optional header elements.
+func allHdrs() []int {
+	var out []int
+	for o := 0; o < 3; o++ {
+		for rest := 0; rest < 32; rest++ {
+			out = append(out, o|rest<<2)
+		}
+	}
+	return out
 }
 
 func versionOf(i int) kmip.ProtocolVersion {
@@ -245,6 +268,31 @@ func buildRequest(rs *ReqSc, prefix string) *kmip.RequestMessage {
 	ts := time.Unix(1700000000, 0).UTC()
 	req := &kmip.RequestMessage{Header: kmip.RequestHeader{ProtocolVersion: versionOf(rs.Version), TimeStamp: &ts,
 		BatchErrorContinuationOption: optionVals[rs.Option%4], BatchCount: int32(len(rs.Items) + rs.CountDelta)}}
+	switch rs.Hdr & 3 {
+	case 1:
+		v := true
+		req.Header.BatchOrderOption = &v
+	case 2:
+		v := false
+		req.Header.BatchOrderOption = &v
+	}
+	if rs.Hdr&4 != 0 {
+		v := false
+		req.Header.AsynchronousIndicator = &v
+	}
+	if rs.Hdr&8 != 0 {
+		req.Header.MaximumResponseSize = 1 << 20
+	}
+	if rs.Hdr&16 != 0 {
+		req.Header.ClientCorrelationValue = "ccv-" + prefix
+	}
+	if rs.Hdr&32 != 0 {
+		req.Header.TimeStamp = nil
+	}
+	if rs.Hdr&64 != 0 {
+		req.Header.Authentication = &kmip.Authentication{Credential: kmip.Credential{CredentialType: kmip.CredentialTypeUsernameAndPassword,
+			CredentialValue: kmip.CredentialValue{UserPassword: &kmip.CredentialValueUserPassword{Username: "u-" + prefix, Password: "p"}}}}
+	}
 	for i, it := range rs.Items {
 		id := fmt.Sprintf("%s.%d", prefix, i)
 		var bi kmip.RequestBatchItem
